@@ -468,4 +468,48 @@ end
 
 end
 
+/-! ### `projected_lon`, `chop_along_antimeridian` (geom.py:1049-1131), `_geojson_to_shapely` (geom.py:420-440) -/
+
+section
+variable {K : Type}
+
+/-- `projected_lon(crs, lon, lat, step)` from the sampled latitudes `ys = arange(lat[0], lat[1], step)`:
+the meridian is sent through the EPSG:4326 → `crs` transformer point by point, points that do not
+project (`not isfinite`) are dropped, and fewer than two surviving points give the empty line -/
+def projectedLon (tr : Pt K → Pt K) (finite : Pt K → Bool) (lon : K) (ys : List K) : List (Pt K) :=
+  let pts := (ys.map (fun y => tr ⟨lon, y⟩)).filter finite
+  if pts.length < 2 then [] else pts
+
+/-- `chop_along_antimeridian(geom, precision)`: no CRS → `ValueError`; `hit l180 g` is
+`geom.intersects(l180)`, `split l180 g` the pieces of `geom.split(l180)` (shapely), re-assembled by
+`multigeom`; a geometry that does not meet the projected antimeridian is handed back as it is -/
+def chopFull (crs : C01.Tag) (l180 : List (Pt K)) (hit : List (Pt K) → Geom K → Bool)
+    (split : List (Pt K) → Geom K → List (Geom K)) (g : Geom K) : Res7 (Geom K) :=
+  match crs with
+  | none => .error (.base .valueError)
+  | some _ => chopAlong (hit l180) (split l180) g
+
+/-- what `Geometry(dict)` is given -/
+inductive GJIn (K : Type) where
+  | noType                                   -- no `"type"` key
+  | featureCollection (fs : List (Geom K))   -- the geometries of its features, in order
+  | feature (g : Geom K)
+  | geometry (g : Geom K)                    -- a plain GeoJSON geometry
+
+/-- `_geojson_to_shapely(xx)`: a FeatureCollection with exactly one feature is that feature's
+geometry, any other number goes through `_multigeom` (none: `KeyError`); a Feature is its geometry -/
+def geojsonToShape : GJIn K → Res7 (Geom K)
+  | .noType => .error (.base .valueError)
+  | .featureCollection [g] => .ok g
+  | .featureCollection fs => multigeomRaw fs
+  | .feature g => .ok g
+  | .geometry g => .ok g
+
+end
+
+/-- `numpy.arange(lat0, lat1, step)` over `Rat` (positive step): `⌈(lat1 - lat0) / step⌉` samples -/
+def arangeRat (lat0 lat1 step : Rat) : List Rat :=
+  if step ≤ 0 then []
+  else (List.range (Rat.ceil ((lat1 - lat0) / step)).toNat).map (fun (k : Nat) => lat0 + (k : Rat) * step)
+
 end OdcGeo.C07
